@@ -92,7 +92,14 @@ pub fn get_diff_ratio(ops: &[DiffOp], old_len: usize, new_len: usize) -> f32 {
     if len == 0 {
         1.0
     } else {
-        2.0 * matches as f32 / len as f32
+        let ratio = 2.0 * matches as f32 / len as f32;
+        // an f32 cannot tell ratios closer to 1 than 2^-24 from 1: never report a
+        // complete match for sequences that differ
+        if ratio >= 1.0 && matches * 2 != len {
+            1.0 - f32::EPSILON / 2.0
+        } else {
+            ratio
+        }
     }
 }
 
